@@ -80,6 +80,10 @@ pub struct Session {
     pub allowed: Vec<(Inject, usize)>,
     /// default environment: the tty is not writable during the first n `select` calls
     pub stall_selects: usize,
+    /// TERM=xterm: the constructor probes the terminal; the peer answers the size query (cells and
+    /// pixels) and DA1 only and the pty reports no pixel size, so the terminal object learns its
+    /// size through escape sequences and asks again (from inside the poll loop) on SIGWINCH
+    pub probe: bool,
 }
 
 // ------------------------------------------------------------------ kernel model (Env)
@@ -103,7 +107,10 @@ pub struct Shared {
     pub polls_completed: usize,
     pub log: Vec<String>,
     pub verbose: bool,
-    da1_scanned: usize,
+    /// (query, reply, answered so far)
+    replies: Vec<(Vec<u8>, Vec<u8>, usize)>,
+    /// deviations are explored only once the terminal object has been constructed
+    pub explore: bool,
     pub env_active: bool,
     pub in_release: bool,
     pub stall_selects: usize,
@@ -154,6 +161,9 @@ impl Shared {
         if avail.is_empty() {
             return;
         }
+        if !self.explore {
+            return;
+        }
         let c = self.choices.choose(1 + avail.len(), label);
         if c > 0 {
             let i = avail[c - 1];
@@ -169,18 +179,36 @@ impl Shared {
         r > 0 && (p.revents & (libc::POLLIN | libc::POLLHUP)) != 0
     }
 
-    /// the peer answers a DA1 query as soon as it has received it
+    /// the peer answers the queries it knows as soon as it has received them completely
     fn peer_reacts(&mut self) {
-        while self.da1_scanned + 3 <= self.out.len() {
-            if &self.out[self.da1_scanned..self.da1_scanned + 3] == b"\x1b[c" {
-                if !self.hangup {
-                    self.input.extend(b"\x1b[?62;c".iter().copied());
-                }
-                self.da1_scanned += 3;
-            } else {
-                self.da1_scanned += 1;
-            }
+        if self.hangup {
+            return;
         }
+        let out = std::mem::take(&mut self.out);
+        // answers are sent in the order in which the queries were received
+        let mut due: Vec<(usize, usize)> = vec![];
+        for (qi, (query, _, answered)) in self.replies.iter_mut().enumerate() {
+            let mut count = 0;
+            let mut i = 0;
+            while i + query.len() <= out.len() {
+                if &out[i..i + query.len()] == query.as_slice() {
+                    count += 1;
+                    if count > *answered {
+                        due.push((i, qi));
+                    }
+                    i += query.len();
+                } else {
+                    i += 1;
+                }
+            }
+            *answered = count.max(*answered);
+        }
+        due.sort();
+        for (_, qi) in due {
+            let reply = self.replies[qi].1.clone();
+            self.input.extend(reply);
+        }
+        self.out = out;
     }
 }
 
@@ -206,7 +234,7 @@ impl Env for Kernel {
         }
         alts.push(Err(libc::EAGAIN));
         alts.push(Err(libc::EINTR));
-        let c = if len == 0 { 0 } else { s.choices.choose(alts.len(), "write") };
+        let c = if len == 0 || !s.explore { 0 } else { s.choices.choose(alts.len(), "write") };
         let res = match alts[c] {
             Ok(n) => {
                 s.out.extend_from_slice(&buf[..n]);
@@ -241,7 +269,7 @@ impl Env for Kernel {
             }
             alts.push(Err(libc::EAGAIN));
             alts.push(Err(libc::EINTR));
-            let c = s.choices.choose(alts.len(), "read");
+            let c = if s.explore { s.choices.choose(alts.len(), "read") } else { 0 };
             match alts[c] {
                 Ok(n) => {
                     for b in buf.iter_mut().take(n) {
@@ -333,7 +361,7 @@ impl Env for Kernel {
                     alts.push(3);
                 }
             }
-            let c = s.choices.choose(alts.len(), "select");
+            let c = if s.explore { s.choices.choose(alts.len(), "select") } else { 0 };
             let res = match alts[c] {
                 0 => Ok((r, w)),
                 1 => Err(std::io::Error::from_raw_os_error(libc::EINTR)),
@@ -528,10 +556,15 @@ pub struct Outcome {
     pub render_result: Option<String>,
 }
 
-fn open_pty() -> Result<(OwnedFd, OwnedFd), String> {
+fn open_pty_px(pixels: bool) -> Result<(OwnedFd, OwnedFd), String> {
     let mut master: libc::c_int = -1;
     let mut slave: libc::c_int = -1;
-    let ws = libc::winsize { ws_row: 24, ws_col: 80, ws_xpixel: 800, ws_ypixel: 480 };
+    let ws = libc::winsize {
+        ws_row: 24,
+        ws_col: 80,
+        ws_xpixel: if pixels { 800 } else { 0 },
+        ws_ypixel: if pixels { 480 } else { 0 },
+    };
     let r = unsafe { libc::openpty(&mut master, &mut slave, std::ptr::null_mut(), std::ptr::null(), &ws) };
     if r != 0 {
         return Err(format!("openpty failed: {}", std::io::Error::last_os_error()));
@@ -556,6 +589,10 @@ fn termios_of(fd: RawFd) -> Option<Vec<u8>> {
     }
 }
 
+fn open_pty() -> Result<(OwnedFd, OwnedFd), String> {
+    open_pty_px(true)
+}
+
 pub fn payload(counter: &mut u32, n: usize) -> Vec<u8> {
     // printable, never ESC, so that it cannot be mistaken for a control sequence
     (0..n)
@@ -575,7 +612,8 @@ pub fn prepare_process() {
 
 /// Run `session` (its first `upto` acts, then settle polls unless `crash`) under `choices`.
 pub fn execute(session: &Session, upto: usize, choices: Choices, verbose: bool) -> Result<Outcome, String> {
-    let (master, slave) = open_pty()?;
+    std::env::set_var("TERM", if session.probe { "xterm" } else { "dumb" });
+    let (master, slave) = open_pty_px(!session.probe)?;
     let slave_dup = unsafe { libc::dup(slave.as_raw_fd()) };
     let saved = termios_of(slave_dup).ok_or("tcgetattr on the pty failed")?;
     let tty_fd = slave.as_raw_fd();
@@ -597,7 +635,11 @@ pub fn execute(session: &Session, upto: usize, choices: Choices, verbose: bool) 
         polls_completed: 0,
         log: vec![],
         verbose,
-        da1_scanned: 0,
+        replies: vec![
+            (b"\x1b[c".to_vec(), b"\x1b[?62;c".to_vec(), 0),
+            (b"\x1b[18t\x1b[14t".to_vec(), b"\x1b[8;24;80t\x1b[4;480;800t".to_vec(), 0),
+        ],
+        explore: false,
         env_active: false,
         in_release: false,
         stall_selects: session.stall_selects,
@@ -635,6 +677,20 @@ pub fn execute(session: &Session, upto: usize, choices: Choices, verbose: bool) 
         }
     };
     sh.borrow_mut().waker = Some(term.waker());
+    {
+        // what the constructor exchanged with the terminal (capability probing) is not part of
+        // the session; exploration of deviations starts here
+        let mut s = sh.borrow_mut();
+        if s.verbose {
+            let n = s.out.len();
+            s.log.push(format!("constructed (probing exchanged {n} bytes)"));
+        }
+        s.out.clear();
+        for r in s.replies.iter_mut() {
+            r.2 = 0;
+        }
+        s.explore = true;
+    }
     let mut expected = Expected::default();
     let mut enc = TTYEncoder::new(TerminalCaps {
         depth: surf_n_term::encoder::ColorDepth::Gray,
@@ -926,7 +982,7 @@ pub fn c17_problems(o: &Outcome, expect_events: &dyn Fn(&[u8]) -> Vec<TerminalEv
         .events
         .iter()
         .filter_map(|(_, r)| match r {
-            Ok(Some(ev)) if !matches!(ev, TerminalEvent::Wake | TerminalEvent::Resize(_) | TerminalEvent::DeviceAttrs(_)) => Some(ev.clone()),
+            Ok(Some(ev)) if !matches!(ev, TerminalEvent::Wake | TerminalEvent::Resize(_) | TerminalEvent::Size(_) | TerminalEvent::DeviceAttrs(_)) => Some(ev.clone()),
             _ => None,
         })
         .collect();
@@ -1002,12 +1058,13 @@ fn inp(s: &[u8]) -> Inject {
 pub fn sessions_c16() -> Vec<Session> {
     use Act::*;
     let mut v = vec![];
-    v.push(Session { name: "write-poll", acts: vec![Write(5), Poll(Some(0))], allowed: vec![], stall_selects: 0 });
+    v.push(Session { name: "write-poll", acts: vec![Write(5), Poll(Some(0))], allowed: vec![], stall_selects: 0, probe: false });
     v.push(Session {
         name: "two-frames",
         acts: vec![Write(1), Flush, Write(5), Flush, Poll(Some(0)), Poll(Some(0))],
         allowed: vec![],
         stall_selects: 0,
+        probe: false,
     });
     v.push(Session {
         name: "exec-mix",
@@ -1019,19 +1076,22 @@ pub fn sessions_c16() -> Vec<Session> {
         ],
         allowed: vec![],
         stall_selects: 0,
+        probe: false,
     });
-    v.push(Session { name: "big-write", acts: vec![Write(200 * 1024), Poll(Some(0)), Poll(Some(0))], allowed: vec![], stall_selects: 0 });
+    v.push(Session { name: "big-write", acts: vec![Write(200 * 1024), Poll(Some(0)), Poll(Some(0))], allowed: vec![], stall_selects: 0, probe: false });
     v.push(Session {
         name: "drop-after-partial",
         acts: vec![Write(6), Flush, Write(4), Flush, Write(3), Poll(Some(0)), FramesDrop, Write(2), Poll(Some(0))],
         allowed: vec![],
         stall_selects: 0,
+        probe: false,
     });
     v.push(Session {
         name: "drop-many",
         acts: vec![Write(2), Flush, Write(2), Flush, Write(2), Flush, Write(2), Flush, FramesDrop, Write(3), Poll(Some(0))],
         allowed: vec![],
         stall_selects: 0,
+        probe: false,
     });
     let mut many = vec![];
     for _ in 0..34 {
@@ -1040,18 +1100,20 @@ pub fn sessions_c16() -> Vec<Session> {
     }
     many.push(FramesDrop);
     many.push(Poll(Some(0)));
-    v.push(Session { name: "drop-34-frames", acts: many, allowed: vec![], stall_selects: 0 });
+    v.push(Session { name: "drop-34-frames", acts: many, allowed: vec![], stall_selects: 0, probe: false });
     v.push(Session {
         name: "poll-finite",
         acts: vec![Write(5), Poll(Some(5)), Write(2), Poll(Some(5))],
         allowed: vec![],
         stall_selects: 0,
+        probe: false,
     });
     v.push(Session {
         name: "poll-blocking",
         acts: vec![Write(3), Schedule(inp(b"a")), Poll(None), Write(2), Poll(Some(0))],
         allowed: vec![],
         stall_selects: 0,
+        probe: false,
     });
     v.push(Session {
         name: "interleaved",
@@ -1067,6 +1129,7 @@ pub fn sessions_c16() -> Vec<Session> {
         ],
         allowed: vec![],
         stall_selects: 0,
+        probe: false,
     });
     {
         use RenderAction::*;
@@ -1080,6 +1143,7 @@ pub fn sessions_c16() -> Vec<Session> {
             ],
             allowed: vec![],
             stall_selects: 0,
+            probe: false,
         });
         // the tty does not accept anything while 36 frames are produced: the render loop drops
         // pending frames (more than 32 pending), then the tty opens up
@@ -1091,43 +1155,71 @@ pub fn sessions_c16() -> Vec<Session> {
             acts: vec![Schedule(inp(b"q")), RunRender(steps)],
             allowed: vec![],
             stall_selects: 38,
+            probe: false,
         });
     }
     v.push(Session {
         name: "output-with-input",
         acts: vec![Write(4), Arrive(inp(b"k")), Poll(Some(0)), Write(3), Poll(Some(0))],
-        allowed: vec![(Inject::Wake, 1)], stall_selects: 0 });
+        allowed: vec![(Inject::Wake, 1)], stall_selects: 0, probe: false });
     v
 }
 
 pub fn sessions_c17() -> Vec<Session> {
     use Act::*;
     vec![
-        Session { name: "wake-blocking", acts: vec![Schedule(inp(b"a")), Poll(None)], allowed: vec![(Inject::Wake, 2)], stall_selects: 0 },
-        Session { name: "wake-output", acts: vec![Write(5), Poll(Some(0)), Poll(Some(5))], allowed: vec![(Inject::Wake, 2)], stall_selects: 0 },
-        Session { name: "wake-idle", acts: vec![Poll(Some(0)), Poll(Some(0))], allowed: vec![(Inject::Wake, 1)], stall_selects: 0 },
+        Session { name: "wake-blocking", acts: vec![Schedule(inp(b"a")), Poll(None)], allowed: vec![(Inject::Wake, 2)], stall_selects: 0, probe: false },
+        Session { name: "wake-output", acts: vec![Write(5), Poll(Some(0)), Poll(Some(5))], allowed: vec![(Inject::Wake, 2)], stall_selects: 0, probe: false },
+        Session { name: "wake-idle", acts: vec![Poll(Some(0)), Poll(Some(0))], allowed: vec![(Inject::Wake, 1)], stall_selects: 0, probe: false },
         Session {
             name: "winch",
             acts: vec![Write(5), Poll(Some(0)), Poll(Some(5))],
-            allowed: vec![(Inject::Winch, 1), (Inject::Wake, 1)], stall_selects: 0 },
+            allowed: vec![(Inject::Winch, 1), (Inject::Wake, 1)], stall_selects: 0, probe: false },
         Session {
             name: "term",
             acts: vec![Write(5), Poll(Some(0)), Poll(Some(5)), Poll(Some(0))],
-            allowed: vec![(Inject::Term, 1)], stall_selects: 0 },
+            allowed: vec![(Inject::Term, 1)], stall_selects: 0, probe: false },
         Session {
             name: "input-bytes",
             acts: vec![Write(4), Arrive(inp(b"\xc3")), Poll(Some(0)), Poll(Some(5)), Poll(Some(0))],
-            allowed: vec![(inp(b"\xa9\x1b["), 1), (inp(b"A"), 1)], stall_selects: 0 },
-        Session { name: "hangup", acts: vec![Write(5), Poll(Some(0)), Poll(Some(5))], allowed: vec![(Inject::Hangup, 1)], stall_selects: 0 },
+            allowed: vec![(inp(b"\xa9\x1b["), 1), (inp(b"A"), 1)], stall_selects: 0, probe: false },
+        Session { name: "hangup", acts: vec![Write(5), Poll(Some(0)), Poll(Some(5))], allowed: vec![(Inject::Hangup, 1)], stall_selects: 0, probe: false },
         Session {
             name: "mixed",
             acts: vec![Write(3), Schedule(inp(b"q")), Poll(None), Poll(Some(0))],
-            allowed: vec![(Inject::Wake, 1), (Inject::Winch, 1), (inp(b"z"), 1)], stall_selects: 0 },
-        Session { name: "big-wake", acts: vec![Write(200 * 1024), Poll(Some(0)), Poll(Some(0))], allowed: vec![(Inject::Wake, 1)], stall_selects: 0 },
+            allowed: vec![(Inject::Wake, 1), (Inject::Winch, 1), (inp(b"z"), 1)], stall_selects: 0, probe: false },
+        Session { name: "big-wake", acts: vec![Write(200 * 1024), Poll(Some(0)), Poll(Some(0))], allowed: vec![(Inject::Wake, 1)], stall_selects: 0, probe: false },
+        Session {
+            name: "stale-da1-at-release",
+            acts: vec![
+                Exec(TerminalCommand::DeviceAttrs),
+                Arrive(inp(b"q")),
+                Poll(Some(0)),
+                Write(300),
+                Poll(Some(0)),
+            ],
+            allowed: vec![],
+            stall_selects: 0,
+            probe: false,
+        },
+        Session {
+            name: "escape-size-winch",
+            acts: vec![Schedule(inp(b"a")), Poll(None), Poll(Some(5))],
+            allowed: vec![(Inject::Winch, 1), (Inject::Wake, 1)],
+            stall_selects: 0,
+            probe: true,
+        },
+        Session {
+            name: "escape-size-output",
+            acts: vec![Write(5), Poll(Some(0)), Poll(Some(5))],
+            allowed: vec![(Inject::Winch, 1)],
+            stall_selects: 0,
+            probe: true,
+        },
         Session {
             name: "quit-with-pending-input",
             acts: vec![Arrive(inp(b"ab")), Poll(Some(0)), Poll(Some(0)), Poll(Some(0))],
-            allowed: vec![(Inject::Term, 1)], stall_selects: 0 },
+            allowed: vec![(Inject::Term, 1)], stall_selects: 0, probe: false },
     ]
 }
 
